@@ -19,7 +19,7 @@ def claim(rng, t, val=None):
     raise ValueError(t)
 
 
-def gen(rng, suite, n_creds=None, kinds=None, heavy=False, shared_issuer=None):
+def gen(rng, suite, n_creds=None, kinds=None, heavy=False, shared_issuer=None, eq_shape=None):
     """kinds: allowed predicate kinds among rev, mem, eq, comm, range, venc, vencdec (venc with scalar decryption), vdec"""
     n_creds = n_creds or rng.choice([1, 1, 2, 3])
     kinds = kinds if kinds is not None else ["rev", "mem", "eq", "comm", "range", "venc"]
@@ -52,7 +52,15 @@ def gen(rng, suite, n_creds=None, kinds=None, heavy=False, shared_issuer=None):
         used[ci] = set()
     # predicates
     if "eq" in kinds and n_creds >= 2 and rng.random() < 0.7:
-        preds.append({"k": "eq", "id": "e0", "refs": [[f"s{ci}", 1] for ci in range(n_creds)]})
+        shape = eq_shape if eq_shape is not None else (rng.choice(["one", "chain", "star"]) if n_creds >= 3 else "one")
+        if shape == "chain":      # pairwise statements a=b, b=c, ...: a claim is a later entry of one statement and the first of the next
+            for ci in range(n_creds - 1):
+                preds.append({"k": "eq", "id": f"e{ci}", "refs": [[f"s{ci}", 1], [f"s{ci + 1}", 1]]})
+        elif shape == "star":     # a=b, a=c, ...
+            for ci in range(1, n_creds):
+                preds.append({"k": "eq", "id": f"e{ci - 1}", "refs": [["s0", 1], [f"s{ci}", 1]]})
+        else:
+            preds.append({"k": "eq", "id": "e0", "refs": [[f"s{ci}", 1] for ci in range(n_creds)]})
         for ci in range(n_creds):
             used[ci].add(1)
     for ci, c in enumerate(creds):
